@@ -402,7 +402,7 @@ def schedule_scenarios():
             return calls()
         return a, b, [calls, lambda: (ev.recompile(old), calls())[1]]
 
-    def two_accepted_then_revisit():
+    def two_accepted_then_revisit(a_first=True):
         # two ACCEPTED recompiles of different texts overlap; afterwards each text is submitted again (sequentially) and must be what runs
         from pyab_experiment.experiment_evaluator import ExperimentEvaluator
         ev = ExperimentEvaluator(old)
@@ -415,7 +415,8 @@ def schedule_scenarios():
             except Exception as ex:  # noqa
                 return common.classify_exc(ex)
         visit = lambda t: (lambda: (rec(t), calls()))
-        return (lambda: rec(new)), (lambda: rec(third)), [visit(third), visit(new), visit(old), visit(third), visit(old), visit(new)]
+        order = [new, third] if a_first else [third, new]
+        return (lambda: rec(new)), (lambda: rec(third)), [calls, visit(order[0]), visit(order[1]), visit(old), visit(order[1]), visit(order[0])]
 
     def two_evaluators_same_names():
         # two different experiments with the same name and field names, built concurrently, then both asked
@@ -423,6 +424,7 @@ def schedule_scenarios():
 
     return [("two constructions", two_constructions), ("recompile vs calls", recompile_vs_calls), ("refused vs accepted recompile", refused_vs_accepted),
             ("same text recompiled twice", same_text_twice), ("two accepted recompiles, then each text again", two_accepted_then_revisit),
+            ("two accepted recompiles, then each text again (other order)", lambda: two_accepted_then_revisit(False)),
             ("two evaluators, same experiment name", two_evaluators_same_names)]
 
 
